@@ -145,3 +145,198 @@ func ZZ_C14_New() {
 	_, ok := rb.Pop()
 	zzrt.Assert(!ok, "new-pop-false")
 }
+
+// ---- bounded operation sequences from New (reachability of the invariant, slice model) ----
+
+// ZZ_C14_Seq runs K operations chosen by the executor (Push of a symbolic
+// value / Pop / PopN(n) / Len) from New(size) against a slice model.
+func ZZ_C14_Seq() {
+	size := int64(zzrt.Choose(zzrt.Param("S"))) + 1
+	K := zzrt.Param("K")
+	rb := New[int64](size)
+	var model []int64
+	for s := 0; s < K; s++ {
+		switch zzrt.Choose(4) {
+		case 0:
+			v := zzrt.NondetInt64("v")
+			rb.Push(v)
+			model = append(model, v)
+		case 1:
+			v, ok := rb.Pop()
+			zzrt.Assert(ok == (len(model) > 0), "seq-pop-false-iff-empty")
+			if len(model) > 0 {
+				zzrt.Assert(v == model[0], "seq-pop-returns-oldest")
+				model = model[1:]
+			}
+		case 2:
+			n := int64(zzrt.Choose(4))
+			out, ok := rb.PopN(n)
+			zzrt.Assert(ok == (len(model) > 0), "seq-popn-false-iff-empty")
+			if ok {
+				k := n
+				if int64(len(model)) < k {
+					k = int64(len(model))
+				}
+				zzrt.Assert(int64(len(out)) == k, "seq-popn-count-is-min")
+				for i := range out {
+					if i < len(model) {
+						zzrt.Assert(out[i] == model[i], "seq-popn-prefix-in-order")
+					}
+				}
+				model = model[k:]
+			}
+		case 3:
+		}
+		zzrt.Assert(rb.Len() == int64(len(model)), "seq-Len-is-pushes-minus-pops")
+		zzrt.Assert(zzInv(rb), "seq-inv")
+		if rb.content.mod != size {
+			zzrt.Reach("seq-grew")
+		}
+	}
+}
+
+// ---- concurrent clause: linearizability of Push/Pop/PopN/Len under every interleaving ----
+
+type zzOp struct {
+	kind     int // 0 push 1 pop 2 popn 3 len
+	arg      int64
+	ok       bool
+	ret      []int64
+	n        int64
+	inv, res int
+}
+
+// zzLin searches a linearisation: a total order of ops, consistent with
+// real-time precedence (a.res < b.inv => a before b), under which a FIFO queue
+// produces exactly the recorded results.
+func zzLin(ops []*zzOp, done []bool, q []int64, left int) bool {
+	if left == 0 {
+		return true
+	}
+	for i, o := range ops {
+		if done[i] {
+			continue
+		}
+		// minimal: no undone op finished before o was invoked
+		minimal := true
+		for j, p := range ops {
+			if j != i && !done[j] && p.res < o.inv {
+				minimal = false
+			}
+		}
+		if !minimal {
+			continue
+		}
+		var nq []int64
+		okStep := false
+		switch o.kind {
+		case 0:
+			nq = append(append(nq, q...), o.arg)
+			okStep = true
+		case 1:
+			if len(q) == 0 {
+				okStep = !o.ok
+				nq = q
+			} else if o.ok && len(o.ret) == 1 && o.ret[0] == q[0] {
+				okStep = true
+				nq = q[1:]
+			}
+		case 2:
+			if len(q) == 0 {
+				okStep = !o.ok
+				nq = q
+			} else if o.ok {
+				k := o.arg
+				if int64(len(q)) < k {
+					k = int64(len(q))
+				}
+				if int64(len(o.ret)) == k {
+					okStep = true
+					for x := int64(0); x < k; x++ {
+						if o.ret[x] != q[x] {
+							okStep = false
+						}
+					}
+					nq = q[k:]
+				}
+			}
+		case 3:
+			okStep = o.n == int64(len(q))
+			nq = q
+		}
+		if !okStep {
+			continue
+		}
+		done[i] = true
+		if zzLin(ops, done, nq, left-1) {
+			return true
+		}
+		done[i] = false
+	}
+	return false
+}
+
+// ZZ_C14_Conc: T goroutines x M operations on one ring of initial size 1..S.
+// Pushed values are distinct constants (the ring never inspects elements; the
+// one-step harnesses quantify over element values), PopN's n is 0..2.
+func ZZ_C14_Conc() {
+	T := zzrt.Param("T")
+	M := zzrt.Param("M")
+	size := int64(zzrt.Choose(zzrt.Param("S"))) + 1
+	rb := New[int64](size)
+	pre := zzrt.Choose(3) // elements already queued
+	var q0 []int64
+	for i := 0; i < pre; i++ {
+		rb.Push(int64(900 + i))
+		q0 = append(q0, int64(900+i))
+	}
+	zzrt.RaceDetect(true)
+	zzrt.RaceWatch(true)
+	clock := 0
+	var ops []*zzOp
+	for t := 0; t < T; t++ {
+		t := t
+		mine := make([]*zzOp, M)
+		for j := 0; j < M; j++ {
+			o := &zzOp{kind: zzrt.Choose(4)}
+			switch o.kind {
+			case 0:
+				o.arg = int64(100*(t+1) + j)
+			case 2:
+				o.arg = int64(zzrt.Choose(3))
+			}
+			mine[j] = o
+			ops = append(ops, o)
+		}
+		zzrt.Go(func() {
+			for _, o := range mine {
+				clock++
+				o.inv = clock
+				switch o.kind {
+				case 0:
+					rb.Push(o.arg)
+				case 1:
+					v, ok := rb.Pop()
+					o.ok = ok
+					if ok {
+						o.ret = []int64{v}
+					}
+				case 2:
+					o.ret, o.ok = rb.PopN(o.arg)
+				case 3:
+					o.n = rb.Len()
+				}
+				clock++
+				o.res = clock
+			}
+		})
+	}
+	zzrt.Quiesce()
+	zzrt.RaceWatch(false)
+	zzrt.Assert(zzLin(ops, make([]bool, len(ops)), q0, len(ops)), "C14:concurrent-history-not-linearizable")
+	zzrt.Assert(zzInv(rb), "C14:invariant-broken-by-concurrent-callers")
+	zzrt.Assert(rb.Len() >= 0, "C14:Len-negative")
+	if rb.content.mod != size {
+		zzrt.Reach("conc-grew")
+	}
+}
